@@ -71,6 +71,12 @@ def gen_topology(rng, level):
         else:
             lock = _dev("bd_lock", rng.randint(1, 3), "pulse", "playfield", "", **t)
         devices.append(lock)
+    vuk = None
+    if level >= 1 and kind != "direct" and rng.random() < 0.3:
+        # a second source feeding the plunger lane (playfield VUK): overlapping ejects towards a 1-ball device
+        t = timing()
+        vuk = _dev("bd_vuk", 1, "pulse", "bd_plunger", "", **t)
+        devices.append(vuk)
     if balls >= 2 and rng.random() < 0.7:
         mb = {"ball_count": rng.randint(2, min(3, balls)), "shoot_again_s": rng.choice([0, 0, 5, 20])}
         if lock and rng.random() < 0.5:
@@ -81,7 +87,7 @@ def gen_topology(rng, level):
     topo = {"balls": balls, "source": "bd_trough" if kind == "direct" else "bd_plunger",
             "balls_per_game": rng.randint(1, 3), "devices": devices, "logic": logic,
             "kind": kind + ("+drain" if has_drain else "") + ("+lock" + lock["counter"][0] if lock else "") +
-            ("+en" if trough_ej == "enable" else "")}
+            ("+en" if trough_ej == "enable" else "") + ("+vuk" if vuk else "")}
     return topo
 
 
@@ -96,6 +102,10 @@ def gen_ops(rng, topo, n_ops, rests):
     kinds = ["drain"] * 6 + ["pf"] * 2 + ["wait"] * 2 + ["start"]
     if has_lock:
         kinds += ["lock"] * 4
+    if "bd_vuk" in names:
+        kinds += ["vuk"] * 3
+    if "bd_plunger" in names:
+        kinds += ["ev:ev_req_plunger"]
     if "multiball" in logic:
         kinds += ["ev:ev_mb_start", "ev:ev_mb_add", "ev:ev_mb_add", "ev:ev_mb_stop"]
     if "ball_save" in logic:
@@ -106,7 +116,7 @@ def gen_ops(rng, topo, n_ops, rests):
     for i in range(n_ops):
         k = rng.choice(kinds)
         dt = rng.choice(DTS)
-        if k in ("drain", "lock", "pf", "wait"):
+        if k in ("drain", "lock", "vuk", "pf", "wait"):
             ops.append([k, dt])
         elif k == "start":
             ops.append(["wait", dt])
@@ -138,7 +148,7 @@ def gen_phys(rng, topo, fault_level):
 
 def shape_of(case):
     topo = case["topo"]
-    ops = "".join({"start": "S", "wait": "w", "drain": "D", "lock": "L", "pf": "p", "ev": "e", "rest": "R",
+    ops = "".join({"start": "S", "wait": "w", "drain": "D", "lock": "L", "vuk": "V", "pf": "p", "ev": "e", "rest": "R",
                    "req": "q"}.get(o[0], "?") for o in case["ops"])
     faults = ",".join("%s:%s" % (k[3:5], "".join(x[0] if x != "back_late" else "B" for x in v))
                       for k, v in sorted(case["phys"].get("faults", {}).items()))
@@ -173,6 +183,8 @@ class Monitors:
         self.coil_times = {n: [] for n in self.devices}
         self._depth = 0
         self._replacement = 0
+        self.mech_idle_ejects = {}
+        self.idle_skips = {}
         Monitors.current = self
         self._patch_classes()
         self._install_loop_hook()
@@ -185,46 +197,45 @@ class Monitors:
         if cls._patched:
             return
         from mpf.devices.ball_device.ball_device import BallDevice
-        o_setup = BallDevice._setup_or_queue_eject_to_target
-        o_chain = BallDevice.setup_eject_chain
-        o_avail = BallDevice._source_device_balls_available
+        from mpf.devices.playfield import Playfield
+        o_add_ball = Playfield.add_ball
+        o_eject = BallDevice.eject
+        o_request = BallDevice.request_ball
+        o_pce = BallDevice.setup_player_controlled_eject
         o_lost_e = BallDevice.lost_ejected_ball
         o_lost_i = BallDevice.lost_incoming_ball
 
-        def setup(self, target, player_controlled=False):
-            mon = cls.current
-            if mon is not None and mon._depth == 0 and mon._replacement == 0:
-                mon._request(target.name)
-            if mon is not None:
-                mon._depth += 1
-            try:
-                return o_setup(self, target, player_controlled)
-            finally:
+        def outermost(fn, target_of):
+            """Count a request only at the outermost public entry point (add_ball -> eject -> ... nest)."""
+            def wrapper(self, *a, **kw):
+                mon = cls.current
+                if mon is not None and mon._depth == 0 and mon._replacement == 0:
+                    try:
+                        tname, n = target_of(self, *a, **kw)
+                        if n and n > 0:
+                            mon._request(tname, n)
+                    except Exception:   # noqa  (never let the observer change behaviour)
+                        pass
                 if mon is not None:
-                    mon._depth -= 1
+                    mon._depth += 1
+                try:
+                    return fn(self, *a, **kw)
+                finally:
+                    if mon is not None:
+                        mon._depth -= 1
+            return wrapper
 
-        def chain(self, path, player_controlled=False):
-            mon = cls.current
-            if mon is not None and mon._depth == 0 and mon._replacement == 0:
-                p = list(path)
-                mon._request(p[-1].name)
-            if mon is not None:
-                mon._depth += 1
-            try:
-                return o_chain(self, path, player_controlled)
-            finally:
-                if mon is not None:
-                    mon._depth -= 1
+        def t_add_ball(self, balls=1, source_device=None, player_controlled=False):
+            return self.name, balls
 
-        def avail(self, **kwargs):
-            mon = cls.current
-            if mon is not None:
-                mon._depth += 1      # re-serving a queued request is not a new request
-            try:
-                return o_avail(self, **kwargs)
-            finally:
-                if mon is not None:
-                    mon._depth -= 1
+        def t_eject(self, balls=1, target=None):
+            return (target or self._target_on_unexpected_ball).name, balls
+
+        def t_request(self, balls=1):
+            return self.name, balls
+
+        def t_pce(self, target=None):
+            return target.name, 1
 
         async def lost_e(self, target):
             mon = cls.current
@@ -246,16 +257,35 @@ class Monitors:
                 if mon is not None:
                     mon._replacement -= 1
 
-        BallDevice._setup_or_queue_eject_to_target = setup
-        BallDevice.setup_eject_chain = chain
-        BallDevice._source_device_balls_available = avail
+        from mpf.devices.ball_device.outgoing_balls_handler import OutgoingBallsHandler
+        o_mech_idle = BallDevice.handle_mechanical_eject_during_idle
+        o_skip = OutgoingBallsHandler._skipping_ball
+
+        async def mech_idle(self):
+            mon = cls.current
+            if mon is not None:
+                mon.mech_idle_ejects[self.name] = mon.mech_idle_ejects.get(self.name, 0) + 1
+            return await o_mech_idle(self)
+
+        async def skipping(self, target, add_ball_to_target):
+            mon = cls.current
+            if mon is not None and add_ball_to_target:
+                mon.idle_skips[self.ball_device.name] = mon.idle_skips.get(self.ball_device.name, 0) + 1
+            return await o_skip(self, target, add_ball_to_target)
+
+        BallDevice.handle_mechanical_eject_during_idle = mech_idle
+        OutgoingBallsHandler._skipping_ball = skipping
+        Playfield.add_ball = outermost(o_add_ball, t_add_ball)
+        BallDevice.eject = outermost(o_eject, t_eject)
+        BallDevice.request_ball = outermost(o_request, t_request)
+        BallDevice.setup_player_controlled_eject = outermost(o_pce, t_pce)
         BallDevice.lost_ejected_ball = lost_e
         BallDevice.lost_incoming_ball = lost_i
         cls._patched = True
 
-    def _request(self, target_name):
-        self.requests[target_name] = self.requests.get(target_name, 0) + 1
-        self.obs["requests"] += 1
+    def _request(self, target_name, n=1):
+        self.requests[target_name] = self.requests.get(target_name, 0) + n
+        self.obs["requests"] += n
 
     # -- events ----------------------------------------------------------------------------------------------
     def _install_event_handlers(self):
@@ -268,6 +298,7 @@ class Monitors:
 
     def _on_success(self, dev, **kwargs):
         self.obs["events_success"] += 1
+        self.dev_events[dev].append((self.vm.now(), "success"))
 
     def _on_failed(self, dev, retry=True, **kwargs):
         self.obs["events_failed"] += 1
@@ -316,10 +347,10 @@ class Monitors:
         for name, d in self.devices.items():
             b = d.balls
             self.clauses["range"] += 1
-            if d._state != "idle":
-                busy += 1
+            if d._state != "idle" or not d.outgoing_balls_handler.is_idle:
+                busy += 1       # an eject is in progress (a mechanical eject during idle keeps the state "idle")
             if b < 0:
-                self.violation("C04", "range", "device_count_negative",
+                self.violation("C04", "range", "device_count_negative_in_state_" + str(d._state),
                                {"device": name, "balls": b, "state": d._state, "counted": d.counted_balls})
             elif b > self.capacity[name]:
                 self.violation("C04", "range", "device_count_above_capacity",
@@ -338,7 +369,9 @@ class Monitors:
             self.clauses["no_room"] = nr
         if self.world.full_fire:
             f = self.world.full_fire[0]
-            self.violation("C04", "no_room", "fired_towards_full_device", f)
+            sig = "two_ejects_in_flight_towards_last_free_slot" if f["inbound_by_mpf"] else \
+                "fired_towards_physically_full_device"
+            self.violation("C04", "no_room", sig, f)
 
     # -- snapshots ---------------------------------------------------------------------------------------------
     def beliefs(self):
@@ -360,7 +393,7 @@ def settle(vm, world, horizon):
     t0 = vm.now()
     while vm.now() - t0 < SETTLE_CAP:
         vm.advance(5.0)
-        if world.quiescent() and vm.now() - world.last_change >= horizon:
+        if world.quiescent() and vm.now() - max(world.last_change, t0) >= horizon:
             return True
     return False
 
@@ -374,8 +407,11 @@ def _crash_sig(exc_text):
 
 
 def run_world_case(case, horizon):
-    from vlib.boot import VMachine, MpfCrash
+    from vlib.boot import VMachine, MpfCrash, guard_import
     from vlib import c04_world as W
+    guard_import()
+    W.install_driver_wrappers()
+    Monitors._patch_classes()       # before boot: handlers registered at boot must bind the wrapped methods
     topo, phys = case["topo"], case["phys"]
     cfg = W.build_config(topo)
     trace = []
@@ -403,6 +439,10 @@ def run_world_case(case, horizon):
                     vm.advance(float(op[1]))
                     if "bd_lock" in world.devs:
                         world.move_loose_ball("bd_lock", kind="lock_shots")
+                elif k == "vuk":
+                    vm.advance(float(op[1]))
+                    if "bd_vuk" in world.devs:
+                        world.move_loose_ball("bd_vuk", kind="lock_shots")
                 elif k == "pf":
                     vm.advance(float(op[1]))
                     world.pf_hit()
@@ -440,6 +480,16 @@ def _safe(fn):
         return repr(e)
 
 
+def _skip_race_config(topo):
+    """A mechanical device whose eject timeout equals the ball_missing_timeout of a device that feeds it."""
+    by = {d["name"]: d for d in topo["devices"]}
+    for d in topo["devices"]:
+        t = by.get(d["target"])
+        if t and t["ejector"] in ("mech", "mech_coil") and t["eject_timeout_ms"] == d["missing_timeout_ms"]:
+            return True
+    return False
+
+
 def evaluate_rest(mon, world, rested, horizon, trace):
     """Both properties' rest-point oracles."""
     mon.obs["rests"] += 1
@@ -462,14 +512,20 @@ def evaluate_rest(mon, world, rested, horizon, trace):
                 mon.violation("C04", "rest_device_count", "device_count_differs_at_rest",
                               {"device": n, "mpf_balls": bel[n]["balls"], "physical": phys[n], "snapshot": snap,
                                "world_trace": world.trace[-40:]})
+        mismatch = any(bel[n]["balls"] != phys[n] for n in mon.devices)
         mon.clauses["rest_playfield_count"] += 1
         if bel["playfield"]["balls"] != phys["playfield"]:
-            mon.violation("C04", "rest_playfield_count", "playfield_count_differs_at_rest",
+            mismatch = True
+            sig = "playfield_count_differs_at_rest"
+            if bel["playfield"]["balls"] > phys["playfield"] and _skip_race_config(mon.topo):
+                sig = "playfield_overcount_skip_confirm_and_missing_timeout_same_instant"
+            mon.violation("C04", "rest_playfield_count", sig,
                           {"mpf_playfield_balls": bel["playfield"]["balls"], "physical_loose": phys["playfield"],
                            "snapshot": snap, "world_trace": world.trace[-40:]})
         mon.clauses["rest_conservation"] += 1
         total = sum(bel[n]["balls"] for n in mon.devices) + bel["playfield"]["balls"]
-        if not (total == bel["num_balls_known"] == world.total_balls):
+        if bel["num_balls_known"] != world.total_balls or (total != bel["num_balls_known"] and not mismatch):
+            # (a sum that is off only because of a count mismatch reported above is not reported twice)
             mon.violation("C04", "rest_conservation", "counts_not_conserved",
                           {"sum_of_counts": total, "num_balls_known": bel["num_balls_known"],
                            "balls_that_exist": world.total_balls, "snapshot": snap})
@@ -507,8 +563,24 @@ def evaluate_rest(mon, world, rested, horizon, trace):
         if st == "waiting_for_target_ready" and tname in world.devs and \
                 world.devs[tname].count() >= world.devs[tname].capacity:
             continue        # target physically full and nobody empties it: cannot be served
-        mon.violation("C05", "idle_or_broken", "device_stuck_in_" + st,
+        sig = "device_stuck_in_" + st
+        if st in ("failed_confirm", "ball_left", "ejecting") and d.ball_count_handler._is_counting.locked() and \
+                mon.mech_idle_ejects.get(n):
+            sig += "_after_failed_mechanical_idle_eject"
+        elif st == "waiting_for_ball":
+            feeding = [s for s in sources.get(n, []) if devs[s].outgoing_balls_handler._current_target is d or
+                       any(e.target is d for e in list(devs[s].outgoing_balls_handler._eject_queue._queue))]
+            if not feeding:
+                sig += "_no_source_sends_one"
+                if mon.mech_idle_ejects.get(n) or mon.idle_skips.get(n):
+                    sig += "_stale_available_balls"
+        elif st == "waiting_for_target_ready" and tname in world.devs and \
+                world.devs[tname].count() < world.devs[tname].capacity:
+            sig += "_although_target_has_room"
+        mon.violation("C05", "idle_or_broken", sig,
                       {"device": n, "state": st, "target": tname, "snapshot": snap,
+                       "mechanical_idle_ejects": mon.mech_idle_ejects.get(n, 0),
+                       "idle_skips": mon.idle_skips.get(n, 0),
                        "world_trace": world.trace[-40:]})
 
     # queued requests that could still be served
@@ -529,31 +601,49 @@ def evaluate_rest(mon, world, rested, horizon, trace):
         for n, d in devs.items():
             for (target, _pc) in d._ball_requests:
                 queued[target.name] = queued.get(target.name, 0) + 1
+        # ejects that are set up but (tolerably) blocked, e.g. towards a physically full target, are still pending
+        blocked = 0
+        for n, d in devs.items():
+            if states[n] != "idle":
+                ob = d.outgoing_balls_handler
+                blocked += ob._eject_queue.qsize() + (1 if ob._current_target is not None else 0)
+        # a ball that rolls back into its source after the eject timeout may come back after MPF (correctly, on
+        # the evidence it has) concluded success or loss; then it is indistinguishable from a new ball
+        back_late = sum(1 for (_t, _d, oc, _by) in world.launch_log if oc == "back_late")
         for tname, r in mon.requests.items():
             mon.clauses["delivery"] += 1
             dl = world.deliveries.get(tname, 0)
             q = queued.get(tname, 0)
-            if r > dl + q + mon.missing_events + mon.failed_final:
+            if r > dl + q + blocked + mon.missing_events + mon.failed_final + back_late:
                 mon.violation("C05", "delivery", "requested_ball_never_delivered",
                               {"target": tname, "requests": r, "delivered": dl, "still_queued": q,
-                               "reported_missing": mon.missing_events, "reported_failed": mon.failed_final,
+                               "blocked_ejects": blocked, "late_fall_backs": back_late, "reported_missing": mon.missing_events, "reported_failed": mon.failed_final,
                                "snapshot": snap, "world_trace": world.trace[-40:]})
 
     # every physical failed eject is retried or reported
     now = mon.vm.now()
     for (t, dev, outcome, by) in world.launch_log:
-        if outcome in ("ok", "late") or by != "coil":
+        if outcome in ("ok", "late", "back_late") or by != "coil":
             continue
         if getattr(mon, "_retry_checked", None) is None:
             mon._retry_checked = set()
         if (t, dev) in mon._retry_checked:
             continue
         mon._retry_checked.add((t, dev))
+        if outcome == "stray" and world.devs[world.devs[dev].target].ejector in ("mech", "mech_coil"):
+            continue        # MPF treats it as a ball that skipped the mechanical plunger: it is on the playfield
         mon.clauses["retry_or_report"] += 1
-        retried = any(ct > t for ct in mon.coil_times[dev])
+        retried = any(ct > t for ct in mon.coil_times[dev]) or \
+            any(t2 > t and d2 == dev for (t2, d2, _o, _b) in world.launch_log)     # coil again, or the player plunged
         reported = any(et >= t and kind in ("failed_final", "broken", "missing", "failed_retry")
                        for et, kind in mon.dev_events[dev])
         if dev in mon.broken:
+            reported = True
+        # MPF confirmed the eject because some ball did arrive at the target in the meantime (coincidence with another
+        # ball): on the evidence it has that is a success, and the target did get a ball
+        tgt = world.devs[dev].target
+        if any(at > t and adst == tgt for at, adst in world.arrival_log) and \
+                any(et > t and kind == "success" for et, kind in mon.dev_events[dev]):
             reported = True
         if not retried and not reported:
             mon.violation("C05", "retry_or_report", "failed_eject_neither_retried_nor_reported",
